@@ -21,6 +21,7 @@ import (
 	"verifharness/kit"
 	"verifharness/lin"
 	"verifharness/respx"
+	"verifharness/schedx"
 )
 
 func TestMain(m *testing.M) { kit.Main(m, "C13") }
@@ -568,5 +569,5 @@ func TestReplay(t *testing.T) {
 		}
 		return o
 	}
-	kit.Replay[OrderCase](t, map[string]func(kit.RawCase) kit.Outcome{"order": kit.ReplaySub(execOrder), "stress": kit.ReplaySub(repS), "atom": kit.ReplaySub(rep(execAtom)), "wide": kit.ReplaySub(execWide), "sched": kit.ReplaySub(execSched)})
+	kit.Replay[OrderCase](t, map[string]func(kit.RawCase) kit.Outcome{"order": kit.ReplaySub(execOrder), "stress": kit.ReplaySub(repS), "atom": kit.ReplaySub(rep(execAtom)), "wide": kit.ReplaySub(execWide), "sched": kit.ReplaySub(schedx.Exec)})
 }
